@@ -215,7 +215,7 @@ func writerDispatch(r *vh.Run) {
 			osd.Content = data
 			o = types.NewLazyObjectStreamObject(osd, 0, -1, func(_ context.Context, s string) (types.Object, error) { return model.ParseObject(&s) })
 		}
-		// without a key nothing is enciphered and the lazy fast path copies the member verbatim
+		// without a key nothing is enciphered; an undecoded member is still decoded first
 		keyed := r.Rand.Intn(5) != 0
 		wkey := key
 		if !keyed {
